@@ -60,7 +60,8 @@ def register(PROPS, COMPONENTS):
         level_text="Lean 4 theorems (kernel-checked; any number of participants, generations, interleavings, any subset dropping "
                    "at any generation, spurious wake-ups as ordinary events) over an executable model of Barrier.hpp at the level of "
                    "its mutex / condition-variable operations and its three plain fields: a thread returns from its n-th arrival "
-                   "only when every current participant has arrived n times; a generation is released exactly by the arrival of "
+                   "only when every current participant has arrived n times (n also read off the trace as the number of calls the thread "
+                   "has made: C09_arrivals_are_calls, C09_return_sound_calls); a generation is released exactly by the arrival of "
                    "the last pending participant; no waiter of a released generation is left in the wait set; wait_and_drop is an "
                    "arrival of the current generation and lowers the arrivals needed by every later generation by one; lapping "
                    "threads cannot release / be released by the wrong generation; L2-L4 (holder never blocked, bounded remaining "
